@@ -192,3 +192,9 @@ for _p in ("C08", "C10", "C16", "C17"):
 # row header, the NULL bitmap and the cell boundaries (C07) are part of what C15 rests on (seeded change C15-d:
 # stale NULL bits of the previous row hide the next row's integers).
 PROPS["C15"]["also"] += ["C07.row", "C07.bitmap", "C07.notnull", "C03.shape", "U3.write_col", "U3.end_row"]
+
+# "Binary rows arrive unchanged ... a value of a type the column cannot carry is refused": the integer cells of a
+# binary row are exactly C15's subject (seeded change C07-e: the generic Value::Int ladder, caught by c15_generic_int
+# under [C15.exact] but first not counted for C07).
+PROPS["C07"].setdefault("also", [])
+PROPS["C07"]["also"] += ["C15."]
